@@ -36,6 +36,11 @@ def run(ctx, replay):
         g = ctx.tlc("Shared", "MCShared.cfg", consts={"Broken": b}, expect_ok=False, timeout=300, name="MCShared-" + b)
         if not g["violated"]:
             raise vcheck.Infra("vacuity guard %s not detected" % b)
+    ctx.tlc("SharedState", "MCSharedState.cfg", consts={"Broken": "none"}, timeout=300, name="MCSharedState")
+    for b, inv in (("cleanupUnlocked", "NoLeak"), ("lazyInitUnlocked", "SetterNeverLost")):
+        g = ctx.tlc("SharedState", "MCSharedState.cfg", consts={"Broken": b}, expect_ok=False, timeout=300, name="MCSharedState-" + b)
+        if g["violated"] != inv:
+            raise vcheck.Infra("vacuity guard %s not detected" % b)
     thorough = ctx.tier == "thorough"
     logdir = os.path.join(ctx.scratch, "race")
     os.makedirs(logdir)
